@@ -493,6 +493,10 @@ func c03One(l *Lab, rep *Report, idp *IdP, c c03Cfg) {
 			if len(dials) != 1 || dials[0] != requested {
 				rep.Violate("C03/dialed-other-than-requested"+key, fmt.Sprintf("requested %q, dial events %v", requested, dials), detail)
 			}
+			rh, rp, _ := net.SplitHostPort(requested)
+			if !isLab && total > 0 && acc[net.JoinHostPort(rh, rp)] != total && (net.ParseIP(rh) != nil || strings.HasSuffix(rh, ".example")) {
+				rep.Violate("C03/accept-on-wrong-listener"+key, fmt.Sprintf("requested %q (no lab listener has that address) was answered with success and the connection landed on %v", requested, acc), detail)
+			}
 			if isLab && (total != 1 || acc[requested] != 1) {
 				rep.Violate("C03/accept-on-wrong-listener"+key, fmt.Sprintf("requested %q, accepts %v", requested, acc), detail)
 			}
@@ -509,6 +513,51 @@ func c03One(l *Lab, rep *Report, idp *IdP, c c03Cfg) {
 		}
 		if ri%53 == 0 {
 			rep.Sample(detail)
+		}
+	}
+	// ---- a token whose host carries no port ('any' mode lets the user ask for one): it names no
+	// endpoint the client could be sent to, so no port may be reached with it
+	if c.Kind == "openid" && c.Mode == "any" {
+		brn := NewBrowser(g, "")
+		for _, th := range []string{"127.0.0.1", ""} {
+			f, _, err := brn.Login(user, "host="+url.QueryEscape(th))
+			if err != nil || f == nil || f.Settings["gatewayaccesstoken"] == "" {
+				rep.Count("portless-token/not-issued", 1)
+				continue
+			}
+			tok := f.Settings["gatewayaccesstoken"]
+			for _, b := range all {
+				b.Reset()
+			}
+			env := &TunnelEnv{GW: g, Transport: Transports()[len(th)%len(Transports())], W: 10 * time.Second}
+			t, _, err := env.OpenTunnel(NewConnID("pl"))
+			if err != nil || t == nil {
+				continue
+			}
+			ok := true
+			for i, st := range [][]byte{HandshakeReq(1, 0, 0, 2), TunnelCreate(0, &tok), TunnelAuth("c")} {
+				t.Send(st)
+				if n, _ := t.WaitPackets(i+1, env.W); n < i+1 {
+					ok = false
+					break
+				}
+			}
+			status := uint32(0xFFFFFFFF)
+			if ok {
+				t.Send(ChannelCreate(th, uint16(a.Port)))
+				if n, _ := t.WaitPackets(4, env.W); n >= 4 {
+					status, _ = LenientStatus(t.Snapshot().Packets[3].Raw)
+				}
+			}
+			t.CloseWrite()
+			t.WaitEnd(env.W, false)
+			t.Close()
+			a.Barrier()
+			rep.Eval(HashStr(c.ID, "portless-token", th, status))
+			rep.Count("requests/portless-token-host", 1)
+			if status == 0 || len(a.Conns()) > 0 {
+				rep.Violate("C03/denied-host-accepted/openid/any/token-host-without-port", fmt.Sprintf("token issued for host %q (no port): channel-create for %q port %d answered %#x, %d connections reached that listener", th, th, a.Port, status, len(a.Conns())), nil)
+			}
 		}
 	}
 	// ---- a second user on the same process asks for the first user's entries
